@@ -28,7 +28,7 @@ func (e *Engine) VerifyFunc(key string) (ctx *FnCtx) {
 		return ctx
 	}
 	ct.Used = true
-	x := &exec{ctx: ctx, e: e, sentinels: map[string]*IfaceV{}, topFn: fn}
+	x := &exec{ctx: ctx, e: e, sentinels: map[string]*IfaceV{}, topFn: fn, pending: map[string]*pendingGroup{}, cellIDs: map[string]int{}}
 	defer func() {
 		if r := recover(); r != nil {
 			switch u := r.(type) {
@@ -72,6 +72,7 @@ func (e *Engine) VerifyFunc(key string) (ctx *FnCtx) {
 	ctx.entryPC = append([]Term(nil), st.pc...)
 	x.pushFrame(st, fn, args, nil, x.finish)
 	x.runBlock(st, fn.Blocks[0], nil)
+	x.drainPending()
 	// witness expressions (evaluated in the entry state) for counterexample extraction
 	func() {
 		defer func() { recover() }()
